@@ -20,6 +20,8 @@ type globScen struct {
 	ID   int      `json:"id"`
 	Tree []string `json:"tree"`
 	Pats []string `json:"pats"`
+	// symbolic links to directories of the tree: [link path, target (relative to the link's directory)]
+	Links [][2]string `json:"links"`
 }
 
 type globRec struct {
@@ -87,6 +89,13 @@ func globHandle(root string, line []byte) any {
 		abs := filepath.Join(root, p)
 		os.MkdirAll(filepath.Dir(abs), 0o755)
 		if err := os.WriteFile(abs, []byte("x"), 0o644); err != nil {
+			return map[string]any{"id": s.ID, "outcome": "driver-error", "err": err.Error()}
+		}
+	}
+	for _, l := range s.Links {
+		abs := filepath.Join(root, l[0])
+		os.MkdirAll(filepath.Dir(abs), 0o755)
+		if err := os.Symlink(l[1], abs); err != nil {
 			return map[string]any{"id": s.ID, "outcome": "driver-error", "err": err.Error()}
 		}
 	}
